@@ -842,6 +842,43 @@ def inject(prog, rng, injector=None):
     return list(r[0]), r[1]
 
 
+
+BINOPS = ("+", "-", "*", "/", "=", "#", "<", "<=", ">", ">=")
+
+
+def missing_right_operand(prog, rng):
+    """(tokens', kind, argument, index of the token in front of the gap, inside_parentheses) - the token list of prog
+    with the single-token right operand of a binary operator deleted; SPL tooling should report `expected expression`
+    at the end of the operator"""
+    toks = splgen.flatten(prog)
+
+    def operand(t):
+        return t not in splgen.KEYWORDS and (t[0].isalnum() or t[0] in "_'")
+
+    c = []
+    for i in range(2, len(toks) - 1):
+        if toks[i - 1] in BINOPS and operand(toks[i]) and toks[i + 1] not in ("[", "(") \
+                and (operand(toks[i - 2]) or toks[i - 2] in (")", "]")) and toks[i + 1] in (";", ")", ",", "]") \
+                and not (toks[i - 1] == "=" and i >= 3 and toks[i - 3] == "type"):
+            c.append(i)
+    if not c:
+        return None
+    i = rng.choice(c)
+    # the operand is the last token of its binary expression; is that expression directly enclosed in parentheses?
+    depth, j, inside = 0, i - 1, False
+    while j >= 0:
+        if toks[j] in (")", "]"):
+            depth += 1
+        elif toks[j] in ("(", "["):
+            if depth == 0:
+                inside = toks[j] == "(" and toks[i + 1] == ")" and j > 0 and not operand(toks[j - 1])
+                break
+            depth -= 1
+        elif depth == 0 and toks[j] in (";", "{", "}", ":="):
+            break
+        j -= 1
+    return toks[:i] + toks[i + 1:], "ExpectedToken", "expression", i - 1, inside
+
 # --------------------------------------------------------------------------------------------
 # token spans of the nodes of a program (indices into splgen.flatten(prog))
 
